@@ -543,8 +543,10 @@ def random_set(rng, nz, kinds, allow_aux=True, center=None, scale=1.0, allow_fix
                 lo[i], hi[i], c[i] = 0.0, w0, w0 / 2
             zc = list(c)
         elif allow_fixed and rng.random() < 0.35:
-            i = int(rng.integers(nz))          # a component fixed at a non-zero value
-            if c[i] == 0:
+            i = int(rng.integers(nz))          # a component fixed at a value (40 %: exactly zero)
+            if rng.random() < 0.4:
+                c[i] = 0.0
+            elif c[i] == 0:
                 c[i] = 0.5
             lo[i] = hi[i] = c[i]
             zc = list(c)
